@@ -53,6 +53,7 @@ def run(tier, seed):
             d[b] = d[a]
             bad.append((v, d, 'duplicate %s=%s (no truncation)' % (a, b)))
     a = vlib.pmap(impl.ecrun, jobs, chunk=8)
+    chk.again("Message('ADT_A01', version, encoding_chars); populate; to_er7(); parse_message(to_er7())", impl.ecrun, jobs, a, 150)
     ba = vlib.pmap(impl.ecrun, [(v, d) for v, d, _ in bad], chunk=8)
     # correspondence: the model parses what the implementation built and must re-encode it identically and read the same set back
     texts = [vlib.unhexs(o.split(' ')[1]) if o.startswith('ok ') else None for o in a]
